@@ -112,7 +112,7 @@ func (c *scriptConn) Read(p []byte) (int, error) {
 	for c.pos < len(c.script) {
 		st := &c.script[c.pos]
 		switch st.K {
-		case "chunk", "chunkeof":
+		case "chunk", "chunkeof", "chunkdl":
 			m := st.N
 			if m > len(c.reply)-c.off {
 				m = len(c.reply) - c.off
@@ -134,6 +134,12 @@ func (c *scriptConn) Read(p []byte) (int, error) {
 				l.add(Ev{"ev": "conn.read", "bytes": ints(c.reply[c.off : c.off+m]), "n": m, "err": "eof"})
 				c.off += m
 				return m, io.EOF
+			}
+			if st.K == "chunkdl" && st.N <= 0 {
+				// the transport hands over what it has when its own read timeout strikes: data together with the timeout error
+				l.add(Ev{"ev": "conn.read", "bytes": ints(c.reply[c.off : c.off+m]), "n": m, "err": "deadline"})
+				c.off += m
+				return m, os.ErrDeadlineExceeded
 			}
 			l.add(Ev{"ev": "conn.read", "bytes": ints(c.reply[c.off : c.off+m]), "n": m, "err": "none"})
 			c.off += m
